@@ -117,6 +117,46 @@ def classify_crash(prop, stderr_text, sig, phase):
     return ('%s:signal:%s:%s' % (prop, SIGNAMES.get(sig, str(sig)), phase), 'killed by signal')
 
 
+def scan_reports(prop, text):
+    """race reports of ThreadSanitizer / helgrind in a process's output -> list of (key, snippet)"""
+    out = []
+    for m in re.finditer(r'WARNING: ThreadSanitizer: ([\w -]+?) \(pid=\d+\)(.*?)(?=\n=====|\Z)', text, re.S):
+        kind, body = m.group(1).strip().replace(' ', '-'), m.group(2)
+        stacks = re.split(r'\n\s*\n', body)
+        ents = []
+        for st in stacks[:3]:
+            fr = _frames(st, 1)
+            if fr and (not ents or ents[-1] != fr[0]):
+                ents.append(fr[0])
+        loc = re.search(r"Location is global '([^']+)'", body)
+        out.append(('%s:tsan:%s:%s%s' % (prop, kind, '|'.join(ents[:2]) or 'unknown', (':' + loc.group(1)) if loc else ''), m.group(0)[:3000]))
+    # helgrind
+    blocks = re.split(r'\n==\d+== \n', text)
+    for b in blocks:
+        if 'Possible data race' not in b and 'Thread #' not in b:
+            continue
+        if 'Possible data race' not in b:
+            continue
+        halves = b.split('This conflicts with a previous')
+        ents = []
+        for h in halves[:2]:
+            fn = None
+            for fm in re.finditer(r'==\d+==\s+(?:at|by) 0x[0-9A-F]+: (\w+) \(([^)]*)\)', h):
+                if '.c:' in fm.group(2) or '.h:' in fm.group(2) or '.cpp:' in fm.group(2):
+                    if 'vg_replace' in fm.group(2) or 'vf_delay' in fm.group(2) or '/harness/' in fm.group(2):
+                        continue
+                    fn = fm.group(1)
+                    break
+            ents.append(fn or 'unknown')
+        lib = re.search(r'==\d+==\s+at 0x[0-9A-F]+: (\w+) \(in [^)]*lib(cholmod|openblas|suitesparseconfig)', halves[0])
+        sym = re.search(r'inside data symbol "([^"]+)"', b)
+        obj = sym.group(1) if sym else ('heap-block' if 'block of size' in b else 'unknown-object')
+        # keyed by the function performing the reported access and the object raced on (helgrind's "previous access" stack is approximate)
+        key = '%s:helgrind-race:%s:%s%s' % (prop, ents[0] if ents else 'unknown', obj, (':in-' + lib.group(2)) if lib else '')
+        out.append((key, b[:3000]))
+    return out
+
+
 class Findings:
     def __init__(self):
         p = os.path.join(VERIF, 'known_findings.json')
@@ -141,6 +181,7 @@ class Pass:
         self.weight = weight
         self.wrapper = wrapper  # e.g. ['valgrind', ...]
         self.extra_bins = extra_bins or {}   # --<key> <path of another built target>
+        self.scan = None        # 'tool': scan the process output for race reports (TSan / helgrind) even if it exits normally
 
 
 class Result:
@@ -243,7 +284,7 @@ def _run_range(prop, ps, binp, seed, tier, a, b, tmpdir, res, wid, verbose=False
                 done = True
                 with res.lock:
                     for k, v in e.get('counters', {}).items():
-                        res.counters[k] = res.counters.get(k, 0) + v
+                        res.counters[k] = max(res.counters.get(k, 0), v) if k.startswith('max-') else res.counters.get(k, 0) + v
                     for s in e.get('samples', []):
                         if len(res.samples) < 6:
                             res.samples.append(s)
@@ -256,6 +297,18 @@ def _run_range(prop, ps, binp, seed, tier, a, b, tmpdir, res, wid, verbose=False
         except OSError:
             pass
         rc = p.returncode
+        if ps.scan:
+            try:
+                full = open(errp, 'r', errors='replace').read()
+            except OSError:
+                full = ''
+            reps = scan_reports(prop, full)
+            with res.lock:
+                res.counters['tool-reports-seen'] = res.counters.get('tool-reports-seen', 0) + len(reps)
+            for key, snip in reps:
+                res.add_viol(key, dict(pass_name=ps.name, case=last_begin if last_begin is not None else start, seed=seed, tier=tier, detail={'report': snip}))
+            if done and rc in (0, 66) and not restart:
+                rc = 0
         if done and rc == 0 and not restart:
             with res.lock:
                 res.cases_run += (b - start)
